@@ -66,6 +66,10 @@ CLAIMED["C12"] = ("property-based testing with fault injection (Hypothesis): gen
          "Exploration + fault enumeration: the value is chosen first, so the expected exit status and the exact view per mode (-S, -y, -m, -o, --no-trailing-newline) are known by construction and every output is decoded and compared; 22 fault kinds must give exit 1 (2 for usage) with a message and no partial output.",
          "Runs as root (permission faults cannot be produced, stated in DESIGN.md); the closed-descriptor case is an open known finding (D10).",
          "DESIGN.md section 5 / C12")
+CLAIMED["C13"] = ("property-based testing with fault injection (Hypothesis): generated directory trees, -J orders and path spellings run through the real binary against a resolution model; self-tracing files count loads",
+         "Exploration + fault enumeration: for every generated tree the id of the copy each import resolves to, the number of evaluations per canonical file, std.thisFile, importstr (lossy UTF-8) and importbin (bytes) content are compared with a 10-line resolution model; missing files, dangling links and cycles must exit 1 located at the import site.",
+         "Trusts the resolution model in pbt/props/c13.py (importer's directory, then -J right-most first, absolute paths bypass) and os.path.realpath for canonical identity; runs as root, so unreadable-file faults are represented by missing files/dangling links/directories.",
+         "DESIGN.md section 5 / C13")
 NOT_YET = {}
 
 def main():
